@@ -106,6 +106,7 @@ func main() {
 				}()
 				registry[id](c)
 				errDiscipline(c)
+				exhDiscipline(c)
 			}()
 			if r := c.Finish(*verif, start, seed, buildExplanation(c)); r != 0 {
 				rc = 1
@@ -137,6 +138,7 @@ func main() {
 		}()
 		f(c)
 		errDiscipline(c)
+		exhDiscipline(c)
 	}()
 	expl := buildExplanation(c)
 	os.Exit(c.Finish(*verif, start, seed, expl))
